@@ -794,7 +794,19 @@ func CancelQuery(qid uint64) {
 	rQuery, ok := allRunningQueries[qid]
 	arqMapLock.RUnlock()
 	if !ok {
-		log.Debugf("CancelQuery: qid %+v does not exist!", qid)
+		// The query may still be waiting for admission; then it is not in allRunningQueries yet.
+		rQuery = removeFromWaitingQueries(qid)
+		if rQuery == nil {
+			log.Debugf("CancelQuery: qid %+v does not exist!", qid)
+			return
+		}
+		rQuery.rqsLock.Lock()
+		rQuery.isCancelled = true
+		if rQuery.cleanupCallback != nil {
+			rQuery.cleanupCallback()
+		}
+		rQuery.rqsLock.Unlock()
+		rQuery.StateChan <- &QueryStateChanData{StateName: CANCELLED, Qid: qid}
 		return
 	}
 	rQuery.rqsLock.Lock()
@@ -814,6 +826,19 @@ func CancelQuery(qid uint64) {
 	}
 
 	rQuery.StateChan <- &QueryStateChanData{StateName: CANCELLED, Qid: qid}
+}
+
+// Removes the query from the waiting queue and returns its state, or nil if it is not waiting.
+func removeFromWaitingQueries(qid uint64) *RunningQueryState {
+	waitingQueriesLock.Lock()
+	defer waitingQueriesLock.Unlock()
+	for i, wsData := range waitingQueries {
+		if wsData.qid == qid {
+			waitingQueries = append(waitingQueries[:i], waitingQueries[i+1:]...)
+			return wsData.rQuery
+		}
+	}
+	return nil
 }
 
 func GetBucketsForQid(qid uint64) (map[string]*structs.AggregationResult, error) {
